@@ -418,6 +418,10 @@ InitFilterGradientBPP (rfbClient* client, int rw, int rh)
 {
   int bits;
 
+  /* FilterGradient keeps two rows of at most 2048 pixels (tightPrevRow, thisRow) */
+  if (rw > 2048)
+    return 0;
+
   bits = InitFilterCopyBPP(client, rw, rh);
   if (client->cutZeros)
     memset(client->tightPrevRow, 0, rw * 3);
